@@ -975,12 +975,12 @@ fn gen_longlists(g: &mut Gen, tier: Tier) {
     }
 }
 
-/// nm-deep: long chains (depth = number of functions), added sink-first and root-first; built once with
-/// a small stack. Generated last: a stack overflow ends the harness process. Monitors only (the model
+/// nm-deep: long chains (depth = number of functions: 800 sink-first, 400 mixed, 400 root-first); built
+/// once with a small stack. Generated last: a stack overflow ends the harness process. Monitors only (the model
 /// walks unary numbers and lists; a 400-chain takes it minutes).
 fn gen_deep(g: &mut Gen) {
-    let n = 400usize;
     for variant in 0..3 {
+        let n = if variant == 0 { 800usize } else { 400 };
         let mut ops: Vec<Op> = (0..n).map(|i| f_plain(fixed_fid(i))).collect();
         for i in 0..n - 1 {
             ops.push(match variant {
